@@ -588,6 +588,102 @@ class Amplitude(Harness):
 
 
 # ---------------------------------------------------------------------------
+class ShiftRange(Harness):
+    """Rejection clause: a cyclic-shift index the numerology does not have
+    (|n_cs| >= 8 for SRS, >= 12 for DMRS) must be refused with an exception by
+    every entry point, never turned into a sequence (it would alias a valid
+    shift: two users on "different" shifts would be identical)."""
+    name = 'shift-range'
+    modules = REFMODS
+    builtins = NAMES
+    functions = (ZC + ':get_shifted_root_seq', SRS + ':get_srs_seq',
+                 DMRS + ':get_dmrs_seq', SRS + ':SrsUeSequence.__init__',
+                 DMRS + ':DmrsUeSequence.__init__')
+    bounds = ('n_cs a symbolic integer with D <= |n_cs| <= 4 D (D = 8 SRS, 12 '
+              'DMRS, also 4 for the generic function), every entry point; root '
+              'of 8 / 12 symbolic unit-modulus entries; normalisation on/off')
+    assumptions = ('in-range negative shifts -D < n_cs < 0 keep the behaviour '
+                   'of the code (not claimed either way)', )
+    ENTRIES = [('get_shifted_root_seq', 8), ('get_shifted_root_seq', 12),
+               ('get_shifted_root_seq', 4), ('get_srs_seq', 8),
+               ('get_dmrs_seq', 12), ('SrsUeSequence', 8),
+               ('DmrsUeSequence', 12)]
+
+    def configs(self, tier):
+        return [dict(entry=e, D=d, normalize=bool(i % 2))
+                for i, (e, d) in enumerate(self.ENTRIES)]
+
+    @staticmethod
+    def _call(cfg, root, n):
+        zc = repo_module(ZC)
+        srs = repo_module(SRS)
+        dm = repo_module(DMRS)
+        e = cfg['entry']
+        if e == 'get_shifted_root_seq':
+            return zc.get_shifted_root_seq(root.seq_array(), n, cfg['D'])
+        if e == 'get_srs_seq':
+            return srs.get_srs_seq(root.seq_array(), n)
+        if e == 'get_dmrs_seq':
+            return dm.get_dmrs_seq(root.seq_array(), n)
+        if e == 'SrsUeSequence':
+            return srs.SrsUeSequence(root, n, normalize=cfg['normalize'])
+        return dm.DmrsUeSequence(root, n, normalize=cfg['normalize'])
+
+    def sym(self, ctx, cfg):
+        D = cfg['D']
+        root = _Root(unit_seq(ctx, 'r', 12 if D == 12 else 8), index=1)
+        n = ctx.integer('n_cs', -4 * D, 4 * D)
+        ctx.assume(Or(n >= D, n <= -D))
+        name = 'out-of-range-shift-refused[%s]' % cfg['entry']
+        try:
+            self._call(cfg, root, n)
+        except Exception:       # refused on this path (any exception)
+            ctx.record(name, 'unsat', 'path-exploration')
+            return
+        ctx.record(name, 'sat', 'path-exploration',
+                   model=ctx.witness() or {})
+
+    def _accepted(self, cfg, n, u=3):
+        """out-of-range shifts accepted on plain values (public API)"""
+        root = _numeric_root(12 if cfg['D'] == 12 else 8, u)
+        try:
+            self._call(cfg, root, n)
+        except Exception:
+            return False
+        return True
+
+    def _boundary(self, D):
+        return [D, D + 1, 2 * D - 1, 2 * D + 5, -D, -D - 3]
+
+    def replay(self, cfg, name, model):
+        D = cfg['D']
+        first = model.get('n_cs')
+        cands = ([int(first)] if isinstance(first, int) and abs(first) >= D
+                 else []) + self._boundary(D)
+        for n in cands:
+            if self._accepted(cfg, n):
+                return dict(reproduced=True,
+                            key='C18/%s/out-of-range-shift-accepted' %
+                            cfg['entry'],
+                            detail=dict(call='%s(.., n_cs=%d) with %d shifts '
+                                        'returned a sequence' %
+                                        (cfg['entry'], n, D)))
+        return dict(reproduced=False, key=None, detail='all refused')
+
+    def concrete(self, cfg, rng):
+        D = cfg['D']
+        k = 0
+        for n in self._boundary(D) + [rng.randint(D, 5 * D),
+                                      -rng.randint(D, 5 * D)]:
+            assert not self._accepted(cfg, n, rng.randint(1, 9)), (cfg, n)
+            k += 1
+        for n in range(D):           # every shift of the numerology works
+            assert self._accepted(cfg, n), (cfg, n)
+            k += 1
+        return k
+
+
+# ---------------------------------------------------------------------------
 class LsEstimator(Harness):
     """H3: compute_ls_estimation(H s, s) = H for every pilot matrix of full
     row rank -- including single-antenna pilot rows with empty (zero)
@@ -1326,6 +1422,7 @@ class CazacMulti(_CazacBase):
 
 
 HARNESSES = [PrimeSelection(), RootSequenceE2E(), Extension(), Amplitude(),
+             ShiftRange(),
              LsEstimator(), CazacSingle(), CazacMulti()]
 for _h in HARNESSES:      # many tiny work units: share forks
     type(_h).units_per_process = 8
